@@ -380,15 +380,20 @@ def _clone_keep(node, keep=None):
     return new
 
 
-def _theory(atom_nodes, bases=None):
+def _theory(atom_nodes, bases=None, consts=None):
     """Pairs of atoms that cannot both be true (the atoms are otherwise treated as independent booleans):
     one expression equal to two different literals; one subject an instance of two unrelated classes; `E is None` together
     with an equality of E to a literal, an isinstance test of E, or any atom that dereferences E."""
     bases = bases or {}
+    consts = consts or {}
     eq_lit, inst, none = {}, {}, {}
+
+    def lit(x):
+        # a named constant of the class (self.WILDCARD = "*") stands for its literal
+        return ast.Constant(value=consts[U(x)]) if U(x) in consts else x
     for text, e in atom_nodes.items():
         if isinstance(e, ast.Compare) and len(e.ops) == 1:
-            l, r, op = e.left, e.comparators[0], e.ops[0]
+            l, r, op = lit(e.left), lit(e.comparators[0]), e.ops[0]
             if isinstance(op, (ast.Eq, ast.NotEq)):
                 for a, c in ((l, r), (r, l)):
                     if isinstance(c, ast.Constant) and c.value is not None and not isinstance(a, ast.Constant):
@@ -421,7 +426,12 @@ def _theory(atom_nodes, bases=None):
             derefs = any(isinstance(n, (ast.Attribute, ast.Subscript)) and U(n.value) == subj for n in ast.walk(e))
             isinst = isinstance(e, ast.Call) and isinstance(e.func, ast.Name) and e.func.id == "isinstance" and e.args and U(e.args[0]) == subj
             eqlit = any(t == text for t, _ in eq_lit.get(subj, []))
-            if derefs or isinst or eqlit:
+            # E == <str method result>: a str is never None
+            eqstr = (isinstance(e, ast.Compare) and len(e.ops) == 1 and isinstance(e.ops[0], ast.Eq) and any(
+                U(a) == subj and isinstance(c, ast.Call) and isinstance(c.func, ast.Attribute)
+                and c.func.attr in ("lower", "upper", "rstrip", "lstrip", "strip", "format", "join")
+                for a, c in ((e.left, e.comparators[0]), (e.comparators[0], e.left))))
+            if derefs or isinst or eqlit or eqstr:
                 out.append((tnone, text))
     return out
 
@@ -454,7 +464,7 @@ def _congruence(atom_nodes):
     return out
 
 
-def compare(code_func, spec_func, axioms=(), bases=None):
+def compare(code_func, spec_func, axioms=(), bases=None, consts=None):
     """Compare two decision functions. Returns (equal, info)."""
     bdd = BDD()
     sk_spec = Skeleton(spec_func, bdd)
@@ -463,7 +473,7 @@ def compare(code_func, spec_func, axioms=(), bases=None):
     # axioms: pairs (a, b) of atom texts that cannot both be true
     nodes = dict(getattr(sk_spec, "atom_nodes", {}))
     nodes.update(getattr(sk_code, "atom_nodes", {}))
-    theory = list(axioms) + _theory(nodes, bases)
+    theory = list(axioms) + _theory(nodes, bases, consts)
     for a, bb in theory:
         if a in bdd.var_index and bb in bdd.var_index:
             diff = bdd.AND(diff, bdd.NOT(bdd.AND(bdd.var(a), bdd.var(bb))))
